@@ -1083,3 +1083,102 @@ Example ex_rows :
   /\ indptr_of (rows_of_coo [true; false] ex_a) = [0; 2; 3]
   /\ same_denb (coo_of_rows [true; false] [2; 3] 0 (rows_of_coo [true; false] ex_a)) ex_a = true.
 Proof. vm_compute. repeat split; reflexivity. Qed.
+
+(* ================================================================= canonical form of a reference result
+   (sorting + pruning), so that the judge can compare raw coords/data with what the implementation
+   returned in O(n log n).  The sort is Coq's verified bottom-up merge sort. *)
+From Coq Require Import Sorting.Mergesort Sorting.Permutation Orders.
+
+Module EntOrder <: TotalLeBool.
+  Definition t := ent.
+  Definition leb (a b : t) : bool := negb (lex_ltb (fst b) (fst a)).
+  Theorem leb_total : forall a b, leb a b = true \/ leb b a = true.
+  Proof.
+    intros a b. unfold leb. destruct (lex_ltb (fst b) (fst a)) eqn:E1; [|left; reflexivity].
+    destruct (lex_ltb (fst a) (fst b)) eqn:E2; [|right; reflexivity].
+    exfalso. apply lex_ltb_spec in E1, E2. apply (lex_lt_irrefl (fst a)). eapply lex_lt_trans; eauto.
+  Qed.
+End EntOrder.
+Module EntSort := Sort EntOrder.
+
+Definition sort_entries (es : list ent) : list ent := EntSort.sort es.
+Definition prune_entries (fill : Z) (es : list ent) : list ent := filter (fun kv => negb (snd kv =? fill)) es.
+
+(* sorted by coordinates, entries equal to the fill dropped *)
+Definition canon (x : coo Z) : coo Z :=
+  of_entries (c_shape x) (prune_entries (c_fill x) (sort_entries (entries x))) (c_fill x).
+
+(* the operand hypotheses of the den-theorems, checked in O(n log n): after sorting, the coordinates
+   are strictly increasing (hence pairwise distinct) *)
+Definition wfsb (x : coo Z) : bool :=
+  forallb (fun d => 0 <=? d) (c_shape x)
+  && forallb (in_rangeb (c_shape x)) (c_coords x)
+  && sorted_strict (map fst (sort_entries (entries x)))
+  && (length (c_data x) =? length (c_coords x))%nat.
+
+Lemma lookup_perm (es es' : list ent) ix :
+  Permutation es es' -> NoDup (map fst es) -> lookup es ix = lookup es' ix.
+Proof.
+  intros Hp Hnd.
+  assert (Hnd' : NoDup (map fst es')) by (eapply Permutation_NoDup; [apply Permutation_map; exact Hp|exact Hnd]).
+  destruct (lookup es ix) as [v|] eqn:E.
+  - symmetry. apply (lookup_In _ es' ix v Hnd'). eapply Permutation_in; [exact Hp|].
+    apply (lookup_In _ es ix v Hnd). exact E.
+  - destruct (lookup es' ix) as [w|] eqn:E'; [|reflexivity].
+    apply (lookup_In _ es' ix w Hnd') in E'. apply Permutation_sym in Hp.
+    apply (Permutation_in _ Hp) in E'. apply (lookup_In _ es ix w Hnd) in E'. congruence.
+Qed.
+
+Lemma lookup_prune fill (es : list ent) ix : NoDup (map fst es) ->
+  lookup (prune_entries fill es) ix
+  = match lookup es ix with Some v => if v =? fill then None else Some v | None => None end.
+Proof.
+  unfold prune_entries. induction es as [|[k v] r IH]; simpl; intros Hnd; [reflexivity|].
+  inversion Hnd as [|? ? Hk Hnd']; subst. specialize (IH Hnd').
+  assert (Hkey : forall w, lookup r ix = Some w -> idx_eqb k ix = false).
+  { intros w Hw. destruct (idx_eqb k ix) eqn:E; [|reflexivity]. apply idx_eqb_eq in E. subst.
+    exfalso. apply Hk. eapply lookup_Some_In. exact Hw. }
+  destruct (v =? fill) eqn:Ev; simpl.
+  - rewrite IH. destruct (lookup r ix) as [w|] eqn:El; [reflexivity|].
+    destruct (idx_eqb k ix); [rewrite Ev|]; reflexivity.
+  - rewrite IH. destruct (lookup r ix) as [w|] eqn:El.
+    + destruct (w =? fill); [|reflexivity]. rewrite (Hkey w eq_refl). reflexivity.
+    + destruct (idx_eqb k ix); [rewrite Ev|]; reflexivity.
+Qed.
+
+Theorem canon_den_proof (x : coo Z) ix : NoDup (map fst (entries x)) -> den (canon x) ix = den x ix.
+Proof.
+  intros Hnd. unfold canon, den. cbn [c_fill of_entries]. rewrite entries_of_entries.
+  pose proof (EntSort.Permuted_sort (entries x)) as Hp. fold (sort_entries (entries x)) in Hp.
+  rewrite lookup_prune.
+  - rewrite <- (lookup_perm _ _ ix Hp Hnd). destruct (lookup (entries x) ix) as [v|]; [|reflexivity].
+    destruct (v =? c_fill x) eqn:E; [|reflexivity]. apply Z.eqb_eq in E. auto.
+  - eapply Permutation_NoDup; [apply Permutation_map; exact Hp|exact Hnd].
+Qed.
+
+Theorem wfsb_spec_proof (x : coo Z) : wfsb x = true ->
+  shape_ok (c_shape x) /\ Forall (in_range (c_shape x)) (c_coords x) /\ NoDup (map fst (entries x)).
+Proof.
+  unfold wfsb. rewrite !andb_true_iff. intros [[[Hs Hr] Hn] Hl]. repeat split.
+  - unfold shape_ok. apply Forall_forall. intros d Hd. rewrite forallb_forall in Hs. apply Z.leb_le. auto.
+  - apply Forall_forall. intros k Hk. rewrite forallb_forall in Hr. apply in_rangeb_spec. auto.
+  - apply sorted_strict_SS, SS_lex_NoDup in Hn.
+    eapply Permutation_NoDup; [|exact Hn]. apply Permutation_map. apply Permutation_sym.
+    apply EntSort.Permuted_sort.
+Qed.
+
+(* equal canonical forms (raw coords/data) => equal dense meaning everywhere *)
+Theorem canon_eq_sound_proof (a b : coo Z) :
+  wfsb a = true -> wfsb b = true -> c_fill a = c_fill b ->
+  entries (canon a) = entries (canon b) -> forall ix, den a ix = den b ix.
+Proof.
+  intros Ha Hb Hf He ix. apply wfsb_spec_proof in Ha, Hb. destruct Ha as [_ [_ Ha]]. destruct Hb as [_ [_ Hb]].
+  rewrite <- (canon_den_proof a ix Ha), <- (canon_den_proof b ix Hb).
+  unfold den. rewrite He. unfold canon. cbn [c_fill of_entries]. rewrite Hf. reflexivity.
+Qed.
+
+Example ex_canon : wfsb (sp_transpose [2; 0; 1]%nat ex_h) = true
+  /\ c_coords (canon (sp_transpose [2; 0; 1]%nat ex_h)) = [[17; 5; 999999]; [17; 123456; 7]; [999999; 5; 0]; [999999; 999999; 999999]]
+  /\ c_data (canon (sp_transpose [2; 0; 1]%nat ex_h)) = [3; 10; -4; 6]
+  /\ c_coords (canon (sp_zip Z.add ex_x (sp_map Z.opp ex_x))) = [].
+Proof. vm_compute. repeat split; reflexivity. Qed.
